@@ -181,6 +181,20 @@ def constructors_and_writers(an, rep):
     R.check(set(default_refs) <= allowed_default and len(set(default_refs)) == 2, "State::default", "references",
             "State::default is referenced from %s" % sorted(set(default_refs)),
             sample={"State::default referenced from": sorted(set(default_refs))})
+    # one context (hence one string / reference numbering) per top-level call: inside the library the contexts are built only
+    # by the entry points; a nested codec that builds its own context restarts the numbering in mid-stream
+    ctx_callers = {"SerializationContext<Output>::new": set(), "DeserializationContext::new": set()}
+    for b in core.bodies.values():
+        if b.test:
+            continue
+        for bb, t, info in mir.calls(b):
+            if info["key"] in ctx_callers:
+                root = core.bodies.get(b.raw.get("root")) if b.kind == "Closure" else b
+                ctx_callers[info["key"]].update(acct(root or b))
+    want_callers = {"SerializationContext<Output>::new": {"serialize"}, "DeserializationContext::new": {"deserialize"}}
+    for k, cs in sorted(ctx_callers.items()):
+        R.check(cs <= want_callers[k] and bool(cs), k, "callers", "a context is built by %s; inside the library only the entry point "
+                "%s may do that" % (sorted(cs), sorted(want_callers[k])), sample={"ctor": k, "called_from": sorted(cs)})
     allowed_writers = {
         "strings_by_id": {"State::store_string"}, "ids_by_string": {"State::store_string"},
         "last_string_id": {"State::store_string"}, "refs_by_id": {"State::store_ref"},
